@@ -300,6 +300,55 @@ let cast_f32 (f : f64) : f64 =
   let h = Printf.sprintf "%016Lx" (Int64.bits_of_float y) in
   f64_of_bits (n_of_hex h)
 
+(* ---- macro ops ---- *)
+let read_lit (s : string) : lit =
+  match s.[1] with
+  | 'i' -> LInt (n_of_dec (String.sub s 2 (String.length s - 2)))
+  | 'f' -> LFloat (f64_of_bits (n_of_hex (String.sub s 2 16)))
+  | 's' ->
+      (match String.split_on_char ':' s with
+       | [_; raw; cooked] -> LStr (bytes_of_hex raw, bytes_of_hex cooked)
+       | _ -> LOther)
+  | 'c' -> LChar (n_of_hex (String.sub s 2 (String.length s - 2)))
+  | _ -> LOther
+let rec read_tt (t : toks) : tt =
+  let s = next t in
+  match s.[0] with
+  | 'P' ->
+      let n = String.length s in
+      Punct (n_of_hex (String.sub s 1 (n - 2)), (if s.[n - 1] = 'j' then Joint else Alone))
+  | 'L' -> Lit (read_lit s)
+  | 'I' -> Ident (bytes_of_hex (after_colon s))
+  | 'G' ->
+      let d = (match s.[1] with 'p' -> Paren | 'b' -> Brace | 'k' -> Bracket | _ -> NoDelim) in
+      let n = int_of_string (String.sub s 2 (String.length s - 2)) in
+      Group (d, List.init n (fun _ -> read_tt t))
+  | _ -> failwith ("bad token " ^ s)
+let show_lit = function
+  | LInt n -> "Li" ^ dec_of_n n
+  | LFloat f -> "Lf" ^ f64_hex f
+  | LStr (raw, cooked) -> "Ls:" ^ hex_of_bytes raw ^ ":" ^ hex_of_bytes cooked
+  | LChar c -> "Lc" ^ hex_of_n c
+  | LOther -> "Lo"
+let rec show_tt = function
+  | Punct (c, s) -> "P" ^ hex_of_n c ^ (match s with Joint -> "j" | Alone -> "a")
+  | Lit l -> show_lit l
+  | Ident s -> "I:" ^ hex_of_bytes s
+  | Group (d, ts) ->
+      Printf.sprintf "G%c%d%s" (match d with Paren -> 'p' | Brace -> 'b' | Bracket -> 'k' | NoDelim -> 'n')
+        (List.length ts) (String.concat "" (List.map (fun x -> " " ^ show_tt x) ts))
+let rec show_mvalue = function
+  | MNil -> "nil"
+  | MLiteral l -> "lit " ^ show_lit l
+  | MNegated l -> "neg " ^ show_lit l
+  | MBool b -> if b then "true" else "false"
+  | MSymbol s -> "sym:" ^ hex_of_bytes s
+  | MKeyword s -> "kw:" ^ hex_of_bytes s
+  | MUnquoted t -> "unq " ^ show_tt t
+  | MList l -> Printf.sprintf "list%d%s" (List.length l) (String.concat "" (List.map (fun x -> " " ^ show_mvalue x) l))
+  | MImproper (l, r) -> Printf.sprintf "improper%d%s %s" (List.length l) (String.concat "" (List.map (fun x -> " " ^ show_mvalue x) l)) (show_mvalue r)
+  | MVector l -> Printf.sprintf "vec%d%s" (List.length l) (String.concat "" (List.map (fun x -> " " ^ show_mvalue x) l))
+
 let read_prim (t : toks) : prim =
   let s = next t in
   let i = String.index s ':' in
@@ -404,6 +453,17 @@ let run_case (line : string) : string =
       (match de cast_f32 (model_ty n) v with
        | SOk d -> "ok " ^ show_data true n d
        | SErr -> "err data")
+  | "macro" ->
+      let ts = ref [] in
+      while has_more t do ts := read_tt t :: !ts done;
+      (match macro_parse (List.rev !ts) with
+       | MOk v -> "ok " ^ show_mvalue v
+       | MErr ExpectedStringLiteral -> "err ExpectedStringLiteral"
+       | MErr UnexpectedToken -> "err UnexpectedToken"
+       | MErr (UnexpectedChar c) -> "err UnexpectedChar " ^ hex_of_n c
+       | MErr UnexpectedDelimiter -> "err UnexpectedDelimiter"
+       | MErr UnexpectedEnd -> "err UnexpectedEnd"
+       | MErr MFuel -> "fuel")
   | "fromf64" ->
       let f = f64_of_bits (n_of_hex (next t)) in
       (match num_from_f64 f with None -> "-" | Some n -> string_of_value (Number n))
